@@ -3,6 +3,7 @@
 #![allow(dead_code)]
 
 pub mod common;
+pub mod big;
 pub mod c01;
 pub mod c02;
 pub mod c03;
